@@ -11,6 +11,19 @@ ext_C06.install()  # library models of this property: Python sets of ints, any /
 SUB = "swcgeom/core/swc_utils/subtree.py"
 REMOVAL = -2
 
+# Second registrations ("fixed small sizes").  Every carrier that walks the node table is verified a second time, against the SAME
+# clauses, on tables of exactly FIXED_SIZES rows whose ids / parents / types / attributes / marks are all symbolic (so every legal
+# numbering of that many nodes is covered, parent-first or not).  The row count being a concrete number, a loop over the rows for
+# which the sidecar has no invariant -- a rewritten carrier -- simply unrolls, and the postconditions are DECIDED at that size
+# (a counter-model is a concrete table) instead of ending in `unsupported: loop without invariant`.
+FIXED_SIZES = (5,)
+FIXED_NOTE = ("second registration on tables of a fixed number of rows: a loop over the rows without a sidecar invariant unrolls, "
+              "the postconditions are decided at that size")
+
+
+def fixed_name(m):
+    return f"{m} rows in any legal numbering"
+
 
 def local_collection_name(key, kind, default="removals"):
     """name of the carrier's local that collects the removals, read off its current AST (so that the local may be renamed):
@@ -124,14 +137,14 @@ def register_propagate(R):
     # ghost Rm: node is marked, or lies below a marked node -- a fresh symbol per call, defined by define_rm and kept in
     # E.spec_extra["Rm"] (so the clauses of a caller can speak about the closure of ITS call)
 
-    def setup(S):
-        n = S.int("n")
-        S.assume(n.z >= 1)
+    def setup(S, size=None):
+        if size is None:
+            n = S.int("n")
+            S.assume(n.z >= 1)
+        else:
+            n = int(size)  # a table of exactly `size` rows
         new_ids, pids = S.arr("int", n=n, name="new_ids"), S.arr("int", n=n, name="pids")
         pids.frozen = True  # only the id array may be written (the function documents that it marks in place)
-        i = z3.Int("i_pr")
-        P, A = pids.arr, new_ids.arr
-        R_ = lambda t: z3.And(t >= 0, t < n.z)
         return dict(topology=(new_ids, pids))
 
     def define_rm(E, old):
@@ -188,12 +201,14 @@ def register_propagate(R):
         ids0, pids0 = fr.vars["topology"]
         return (ids0, SArr.fresh("int", pids0.nz(), name="pids_copy"))
 
-    R.add(f"{SUB}:propagate_removal", prop="C06", setup=setup,
-          requires=[wf_pre("same-length"), wf_pre("node-0-is-the-root-and-parents-exist"), wf_pre("every-node-reaches-the-root")],
-          ghost_entry=define_rm, returns=pr_result, modifies=["topology[0]"],
-          ensures=[(nm, post(nm)) for nm in ("marked-exactly-the-removal-closure", "survivors-keep-their-id", "parents-returned-as-a-fresh-equal-copy", "marks-in-place")],
-          options=dict(traverse_rule=Rule(J, Qe=Qe, modifies=["new_ids"], enter_kind="bool")),
+    PR = dict(requires=[wf_pre("same-length"), wf_pre("node-0-is-the-root-and-parents-exist"), wf_pre("every-node-reaches-the-root")],
+              ghost_entry=define_rm, returns=pr_result, modifies=["topology[0]"],
+              ensures=[(nm, post(nm)) for nm in ("marked-exactly-the-removal-closure", "survivors-keep-their-id", "parents-returned-as-a-fresh-equal-copy", "marks-in-place")],
+              options=dict(traverse_rule=Rule(J, Qe=Qe, modifies=["new_ids"], enter_kind="bool")))
+    R.add(f"{SUB}:propagate_removal", prop="C06", setup=setup, **PR,
           notes="the id array is marked IN PLACE (documented); callers must hand in a private copy — that is an obligation of to_subtree")
+    # the same contract on tables of a fixed small number of rows (marks and parents symbolic: ANY legal numbering)
+    R.add(f"{SUB}:propagate_removal", prop="C06", variants={fixed_name(m): (lambda S, m=m: setup(S, size=m)) for m in FIXED_SIZES}, **PR, notes=FIXED_NOTE)
 
 
 _reg6 = register
@@ -242,6 +257,9 @@ def register_subtree(R):
         return dict(t.fields["ndata"].items)
 
     def list_view(L):
+        """(z3 array, length) of a sequence of ints: a Python list (symbolic or concrete) or a 1-D numpy array"""
+        if isinstance(L, SArr):
+            return L.arr, L.nz()
         if L.items is None:
             return L.cols[0], zint(L.n)
         a = z3.K(I, z3.IntVal(0))
@@ -346,8 +364,23 @@ def register_subtree(R):
           notes="out_mapping: None, a list or a dict (any previous content is discarded)")
 
     # ------------------------------------------------------------------ to_subtree
-    def raw_tree(S, name="t"):
-        return sym_tree(S, name, frozen=True, extra_cols=(EXTRA6,))
+    def raw_tree(S, name="t", size=None):
+        """the input tree: frozen symbolic columns (with one extra attribute column) of one symbolic length, or -- `size` given --
+        of exactly `size` rows (a CONCRETE length: loops over the rows that have no sidecar invariant then simply unroll)"""
+        if size is None:
+            return sym_tree(S, name, frozen=True, extra_cols=(EXTRA6,))
+        from swcgeom.core.swc_utils import get_names, get_types
+        from swcgeom.core.tree import Tree
+
+        cols = {}
+        for c, k in list(COLS.items()) + [(EXTRA6, "real")]:
+            cols[c] = S.arr(k, n=int(size), name=f"{name}_{c}")
+            cols[c].frozen = True
+        nd = PDict(cols)
+        nd.frozen = True
+        t = S.obj(Tree, ndata=nd, names=get_names(), types=get_types(), source="", comments=PList([]))
+        t.frozen = True
+        return t
 
     def wf_clause(which, tname="swc_like"):
         """well-formed input tree (a PRECONDITION: proved at every modular call site); tname: parameter name or getter(vars)"""
@@ -368,9 +401,9 @@ def register_subtree(R):
 
     WF = ["ids-are-positions", "node-0-is-the-root-and-parents-exist", "every-node-reaches-the-root"]
 
-    def ts_setup(kind, out_kind="none"):
+    def ts_setup(kind, out_kind="none", size=None):
         def f(S):
-            t = raw_tree(S)
+            t = raw_tree(S, size=size)
             if kind == "list":
                 rem = S.plist("int", name="removals")
             else:
@@ -493,15 +526,20 @@ def register_subtree(R):
 
     TS_POSTS = ["removal-closure-is-removed-or-below-a-removed-node", "survivors-are-exactly-the-nodes-outside-the-closure-in-order", "survivors-keep-every-attribute",
                 "ids-are-positions-and-parent-relation-kept", "result-shares-no-storage-with-the-input", "mapping-reported"]
+    TS = dict(requires=[wf_clause(w) for w in WF] + [("removals-are-node-ids", ts_pre_removals)],
+              returns=ts_result, modifies=["out_mapping"], inlined_loops={f"{IMPL}:to_subtree_impl": DICT_LOOP},
+              ensures=[(nm, ts_post(nm)) for nm in TS_POSTS],
+              loops={0: dict(invariant=[("marks-so-far", ts_inv("marks-so-far"))])})
     R.add(f"{TU}:to_subtree", prop="C06",
           variants={"removals in a list": ts_setup("list"), "removals in a set": ts_setup("set"),
                     "removals in a list, mapping into a list": ts_setup("list", "list"), "removals in a list, mapping into a dict": ts_setup("list", "dict")},
-          requires=[wf_clause(w) for w in WF] + [("removals-are-node-ids", ts_pre_removals)],
-          returns=ts_result, modifies=["out_mapping"], inlined_loops={f"{IMPL}:to_subtree_impl": DICT_LOOP},
-          ensures=[(nm, ts_post(nm)) for nm in TS_POSTS],
-          loops={0: dict(invariant=[("marks-so-far", ts_inv("marks-so-far"))])},
+          **TS,
           notes="the input tree is frozen (any store into it is a failed frame obligation); removals may repeat and come in any order; "
                 "used modularly by cut_tree / CutByType / CutShortTipBranch (ghost outputs: mapping, its inverse, the removal closure)")
+    # the same contract on trees of a fixed small number of rows (removals still a list / set of ANY length)
+    R.add(f"{TU}:to_subtree", prop="C06",
+          variants={f"{fixed_name(m)}, removals in a {kind}": ts_setup(kind, size=m) for m in FIXED_SIZES for kind in ("list", "set")},
+          **TS, notes=FIXED_NOTE)
 
     # ------------------------------------------------------------------ get_subtree_impl (traverse client rule)
     def gs_setup(kind):
@@ -1044,10 +1082,10 @@ def register_cut_by_type(R):
     TT = "swcgeom/transforms/tree.py"
     REM = local_collection_name(f"{TT}:CutByType.__call__", "set")  # the local set of removals (whatever it is called)
 
-    def setup(S):
+    def setup(S, size=None):
         from swcgeom.transforms.tree import CutByType
 
-        t = K["raw_tree"](S)
+        t = K["raw_tree"](S, size=size)
         G = Obj(GhostList, dict(keep=SArr(z3.K(I, z3.BoolVal(False)), nof(t), "bool", name="keep")))  # ghost: what `leave` returned at x
         return dict(self=S.obj(CutByType, type=S.int("wanted_type")), x=t, __ghost__=dict(G6=G))
 
@@ -1107,7 +1145,8 @@ def register_cut_by_type(R):
         t = c["swc_like"]
         mapping, kappa, rho, Rm = K["sub_ghost"](E, c["__result__"])
         keep = G6(E).fields["keep"].arr
-        ctx = E.ghost["last-traverse-ctx"]
+        if E.ghost.get("last-traverse-ctx") is None:
+            return  # no traversal on this path (a rewritten carrier): `keep` was never filled in, the steps below have nothing to say
         P, n = col(t, "pid").arr, nof(t)
         x = z3.Int(fresh_name("x"))
         Rg = lambda q: z3.And(q >= 0, q < n)
@@ -1128,6 +1167,15 @@ def register_cut_by_type(R):
                        hints={"post/kept-iff-of-the-type-or-parent-of-a-kept-node": induction_hint}),
           notes="kept = the nodes of the type and all their ancestors (the unique fixpoint of `of the type, or parent of a kept node` on a finite tree); "
                 "`removals` is a Python set of ids; to_subtree through its proved contract")
+
+    # ---- the same contract on tables of a fixed small number of rows (ids, parents, types, attributes symbolic; ANY legal numbering)
+    R.add(f"{TT}:CutByType.__call__", prop="C06",
+          variants={fixed_name(m): (lambda S, m=m: setup(S, size=m)) for m in FIXED_SIZES},
+          requires=[K["wf_clause"](w, "x") for w in K["WF"]],
+          ensures=[(nm, post(nm)) for nm in POSTS],
+          options=dict(traverse_rule=Rule(J, Ql=Ql, modifies=[REM, G6], leave_kind="bool", ghost_leave=ghost_leave),
+                       hints={"post/kept-iff-of-the-type-or-parent-of-a-kept-node": induction_hint}),
+          notes=FIXED_NOTE)
 
     # ---- the nested leave callback on its own (its clauses are POSTCONDITIONS here)
     from contracts.C09 import node_obj
